@@ -747,6 +747,7 @@ func init() {
 			ruleStaleReportsItself(c)
 			ruleEveryRecordDelivered(c)
 			ruleScanCoversAllIDs(c)
+			ruleWeightsOfTheLoadedStore(c)
 		})
 		c.Group("C17/weights-written", "SaveStoreWeight writes both weight keys unconditionally", func() { ruleWeightsAlwaysWritten(c) })
 		c.Group("C17/storage-errors", "no storage function reports success after a kv call whose error was not found nil", func() { ruleStorageErrorDiscipline(c) })
@@ -981,5 +982,54 @@ func ruleKeyFamilies(c *Ctx) {
 	}
 	if nFam < 8 {
 		c.Undec(rule, "record families in Storage", "at least 8", "", fmt.Sprint(nFam))
+	}
+}
+
+// ruleWeightsOfTheLoadedStore: the weights attached to a store loaded back are
+// read under that store's own id — the id inside the record just decoded, not
+// the paging cursor (which is the previous id + 1) or anything else.
+func ruleWeightsOfTheLoadedStore(c *Ctx) {
+	P := c.P
+	rule := c.Prop + "/paging"
+	fn := P.Method("server/core", "Storage", "LoadStores")
+	c.saw(fnName(fn))
+	mpb := "github.com/pingcap/kvproto/pkg/metapb"
+	getID := F(P.Method(mpb, "Store", "GetId"))
+	idF := P.Field(mpb, "Store", "Id")
+	newStore := F(P.Func("server/core", "NewStoreInfo"))
+	// the record handed to NewStoreInfo
+	var rec ssa.Value
+	for _, ci := range callsIn(fn, false, newStore) {
+		if a := callArgs(ci.Common()); len(a) > 0 {
+			rec = a[0]
+		}
+	}
+	if rec == nil {
+		c.Undec(rule, "NewStoreInfo in "+fnName(fn), "found", P.pos(fn.Pos()), "")
+		return
+	}
+	n := 0
+	for _, name := range []string{"storeLeaderWeightPath", "storeRegionWeightPath"} {
+		path := F(P.Method("server/core", "Storage", name))
+		for _, ci := range callsIn(fn, false, path) {
+			a := callArgs(ci.Common())
+			if len(a) != 1 {
+				continue
+			}
+			n++
+			ok := false
+			if cl, _ := callOf(a[0]); cl != nil && getID.Match(cl.Common()) && sameVal(callRecv(cl.Common()), rec) {
+				ok = true
+			}
+			if u, isU := strip(a[0]).(*ssa.UnOp); isU && fieldOfAddr(u.X) == idF {
+				if fa, isFA := u.X.(*ssa.FieldAddr); isFA && sameVal(fa.X, rec) {
+					ok = true
+				}
+			}
+			c.Check(ok, rule, name+" in "+fnName(fn), "the weight is read under the id of the store record just decoded", P.instrPos(ci.(ssa.Instruction)), "")
+		}
+	}
+	if n < 2 {
+		c.Undec(rule, "weight lookups in "+fnName(fn), "2 (leader, region)", "", fmt.Sprint(n))
 	}
 }
